@@ -33,16 +33,17 @@ UNITS = {
     "hindex": [()],
     "specparse": [TF],
     "errchan": [()],
+    "restartnum": [()],
 }
 
 # property -> list of (unit, features)
 PROP_UNITS = {
-    "C01": [("state", ()), ("handle", ()), ("swrite", ()), ("collide", ()), ("ffilter", ()), ("hindex", ())],
+    "C01": [("state", ()), ("handle", ()), ("swrite", ()), ("collide", ()), ("ffilter", ()), ("hindex", ()), ("restartnum", ())],
     "C02": [("spec", TF), ("logger", TF), ("handle_c", TF), ("handle_d", TF), ("lbuild", ()), ("specbuilder", TF)],
     "C04": [("state", ()), ("handle", ()), ("flw", ()), ("primary", ()), ("dispatch", ("async",)), ("stdw", ("async",)), ("lh", TF), ("lbuild", ()), ("handle_async", ("async",)), ("logger", TF), ("wmode", ()), ("wmode", ("async",)), ("multi", ())],
     "C05": [("handle_a", TF), ("handle_b", TF), ("handle_b2", TF), ("handle_c", TF), ("spec", TF), ("lbuild", ())],
-    "C06": [("state", ()), ("timestamps", ()), ("builder", ()), ("collide", ()), ("latest", ()), ("ffilter", ()), ("hindex", ())],
-    "C07": [("state", ()), ("listing", ()), ("cleanup", ()), ("collide", ()), ("builder", ()), ("builder", ("async",)), ("ffilter", ())],
+    "C06": [("state", ()), ("timestamps", ()), ("builder", ()), ("collide", ()), ("latest", ()), ("ffilter", ()), ("hindex", ()), ("restartnum", ())],
+    "C07": [("state", ()), ("listing", ()), ("cleanup", ()), ("collide", ()), ("builder", ()), ("builder", ("async",)), ("ffilter", ()), ("restartnum", ())],
     "C08": [("state", ())],
     "C09": [("state", ()), ("timestamps", ()), ("builder", ())],
     "C13": [("logger", TF), ("flw", ()), ("multi", ()), ("primary", ()), ("lh", TF), ("lbuild", ()), ("builder", ())],
